@@ -783,7 +783,15 @@ def replay(task, label, inputs, extra):
                 v = min(v, hi)
             return v
 
+        def sym_bits(name, nbits, default=0):
+            v = 0
+            for j in range(nbits):
+                b = inputs.get("%s.%d" % (name, j))
+                v = (v << 1) | ((default >> (nbits - 1 - j)) & 1 if b is None else b)
+            return v
+
         ctx.sym_int = sym_int
+        ctx.sym_bits = sym_bits
         return fn(ctx)
 
     ctx, res = core.run_path(pinned, eng, [], {})
